@@ -107,3 +107,37 @@ def run(ctx):
                "'refused' means nothing listens and existing connections are gone for that attempt",
                "a malformed reply may or may not be retried (both allowed)",
                "node timeout 120 ms, retry delay 3 ms; 15 ms pause before each healthy-phase call so the client's reader has noticed what the node did to the connection")
+
+    # 3. fleet membership, cached connections and fan-out: FleetMembers.tla, behaviours replayed on the real fleets
+    ctx.tlc_mc("MC_FleetMembers", "MC_FleetMembers.cfg", must_cover=["AddNode", "RemoveNode", "ConnectAll", "DisconnectAll", "ReconnectDisconnected", "Call", "Broadcast", "HealthCheck", "NodeDown", "NodeUp"])
+    ctx.tlc_mc("MC_FleetMembers", "MC_FleetMembers_one.cfg")
+    ctx.tlc_mc("MC_FleetMembers", "MC_FleetMembers_anytag.cfg", expect_violation="BroadcastExact")
+    ctx.tlc_mc("MC_FleetMembers", "MC_FleetMembers_keepstale.cfg", expect_violation="NoStaleAfterFanOut")
+    fm_total = {"behaviours": 0, "steps": 0, "operations": {}}
+    per = 40 if q else 400
+    gens = []
+    for m in (2, 1):
+        # every transition of the small model (2 nodes, 1 tag; thorough: 3 nodes), reached the short way
+        gens.append((m, "edges", 10**9, ctx.tlc_generate("MC_FleetMembersEdges", f"MC_FleetMembersEdges_{'small' if q else 'mid'}_{m}.cfg", ["MC_FleetMembersGen.tla", "FleetMembers.tla"], timeout=1200)))
+        # random behaviours of length 30 of the larger model (3 nodes, 2 tags)
+        gens.append((m, "random", per, ctx.tlc_generate("MC_FleetMembersGen", f"MC_FleetMembersGen_{m}.cfg", ["FleetMembers.tla"], timeout=1200,
+                                                         extra_args=["-simulate", f"num={per}", "-depth", "31", "-seed", str(ctx.seed)])))
+    for m, how, cap, beh in gens:
+        for kind in ("blocking", "async"):
+            out = ctx.work / f"fm-{kind}-{how}-{m}.json"
+            ctx.vh("fleet-members", "--kind", kind, "--behaviours", beh, "--max", cap, "--out", out, timeout=1700)
+            r = json.loads(out.read_text())
+            fm_total["behaviours"] += r["behaviours"]
+            fm_total["steps"] += r["steps"]
+            for k, v in r["operations"].items():
+                fm_total["operations"][k] = fm_total["operations"].get(k, 0) + v
+            for f in r["failures"]:
+                w = f["what"].split(" ")
+                op = w[2].split("(")[0] if len(w) > 2 else "?"
+                ctx.violation(f"fleet-members:{kind}:{op}", f"{kind} fleet, replaying a FleetMembers behaviour (max_attempts {m}): {f['what']}", f)
+            if r["behaviours"] < (30 if how == "random" else 1000) and not r["failures"]:
+                raise vlib.ToolError(f"only {r['behaviours']} FleetMembers behaviours ({how}) replayed on the {kind} fleet")
+    ctx.coverage["fleet_members_replay"] = fm_total
+    ctx.coverage["traces_validated_against_impl"] += fm_total["behaviours"]
+    ctx.coverage["evaluations"] += fm_total["steps"]
+    ctx.assume("FleetMembers: a node that goes down drops its connections and refuses connects; it comes back on the same port; operations are issued one at a time")
